@@ -248,6 +248,25 @@ def pt_input(node, env, data_cache=None):
         v = npref.make_input(p["values"], p["dtype"], p["shape"],
                              p.get("scale", 0))
         data = v.a.copy()
+        view = p.get("view")
+        if view is not None and data_cache is not None:
+            # several wrappers looking at one buffer through different
+            # layouts (C05: deduplicate_data_wrappers must tell them apart)
+            base = data_cache.get(("arena", view["arena"]))
+            if base is None:
+                base = npref.make_input(view["base_values"], p["dtype"],
+                                        view["base_shape"], p.get("scale", 0)
+                                        ).a.copy()
+                data_cache[("arena", view["arena"])] = base
+            kind = view["kind"]
+            vdata = (base if kind == "plain" else base.T if kind == "T"
+                     else base[::2] if kind == "step2"
+                     else base[:base.shape[0] // 2] if kind == "prefix"
+                     else None)
+            assert vdata is not None and vdata.shape == data.shape and \
+                np.array_equal(vdata, data, equal_nan=True), "bad view spec"
+            data_cache.setdefault("all", []).append(vdata)
+            return pt.make_data_wrapper(vdata)
         if data_cache is not None:
             share = p.get("share")
             if share is not None:
